@@ -119,7 +119,8 @@ Print Assumptions C01_inconsistent_rejected.
     length prefix, bit sequences, external types).  Every theorem below quantifies over
     ALL value types [pv bv ov] and ALL primitive codecs [P] that satisfy the round-trip
     hypotheses [prims_ok P] (for the depth transfer also [prims_mono P]: an external
-    decoder accepts more when the decoders of its arguments do).  That this abstract codec
+    decoder accepts more when the decoders of its arguments do; for the converse direction
+    [prims_rev P]: the primitive encodings are self-delimiting).  That this abstract codec
     is what parity-scale-codec's derive does on the emitted items is validated by the
     thorough compile tier, not proved. *)
 From V Require Import Model.Codec Model.CodecInstance Model.CodecExample
@@ -134,6 +135,17 @@ Theorem C01_decode_encode :
       decode P sh b = Some (v, rest) -> exists e, encode P sh v = Some e /\ e ++ rest = b.
 Proof. exact (@decode_encode). Qed.
 Print Assumptions C01_decode_encode.
+
+(** conversely (under the converse hypotheses [prims_rev P]: the primitive encodings are
+    self-delimiting) what the encoder of a shape produces, followed by anything, decodes with
+    the decoder of the same shape to the value encoded and hands the rest back *)
+Theorem C01_encode_decode :
+  forall (pv bv ov : Type) (P : prims pv bv ov),
+    prims_rev P ->
+    forall sh v bs rest,
+      encode P sh v = Some bs -> decode P sh (bs ++ rest) = Some (v, rest).
+Proof. exact (@encode_decode). Qed.
+Print Assumptions C01_encode_decode.
 
 (** the codec is a function of the shape: equal shapes, same decoder and same encoder *)
 Theorem C01_codec_depends_on_shape :
@@ -205,10 +217,24 @@ Theorem C01_decode_deeper :
 Proof. exact (@generate_decode_deeper). Qed.
 Print Assumptions C01_decode_deeper.
 
+(** the other reading of "valid encoding" - the bytes the registry reading ENCODES a value
+    to: the generated type decodes them completely to that value and encodes it to them *)
+Theorem C01_encode :
+  forall (pv bv ov : Type) (P : prims pv bv ov) r s teq m,
+    prims_rev P ->
+    skeleton_consistent r s -> root_fresh s -> generate r s teq = Ok m ->
+    forall id t n b v,
+      resolve_type_path r s id = Ok t ->
+      encode P (shape_reg r s n id) v = Some b ->
+      decode P (shape_rust m s n t) b = Some (v, []) /\
+      encode P (shape_rust m s n t) v = Some b.
+Proof. exact (@generate_encode). Qed.
+Print Assumptions C01_encode.
+
 (** the hypotheses on the primitive codecs are satisfiable: the little-endian / SCALE
     compact instance of Model/CodecInstance.v *)
-Theorem C01_codec_instance : prims_ok iprims /\ prims_mono iprims.
-Proof. exact (conj iprims_ok iprims_mono). Qed.
+Theorem C01_codec_instance : prims_ok iprims /\ prims_mono iprims /\ prims_rev iprims.
+Proof. exact (conj iprims_ok (conj iprims_mono iprims_rev)). Qed.
 Print Assumptions C01_codec_instance.
 
 (** real bytes (finite computation): on the registry of Model/CodecExample.v (a struct with a
